@@ -116,6 +116,8 @@ struct FnDir {
     exit_: String,
     loops: BTreeMap<usize, String>,
     loop_iters: BTreeMap<usize, String>,
+    loop_ends: BTreeMap<usize, String>, // text appended at the end of loop k's body
+    loop_starts: BTreeMap<usize, String>, // text inserted at the start of loop k's body
     anchors: Vec<(String, String)>, // (substring of a printed statement line, text inserted after that line)
     line: usize,
 }
@@ -345,19 +347,24 @@ impl<'a> VisitMut for LoopMarker<'a> {
         // visit children first (inner loops get larger ordinals: pre-order numbering)
         syn::visit_mut::visit_expr_mut(self, e);
         let ph = quote::format_ident!("__VX_LOOP_{}__", k);
+        let pe = quote::format_ident!("__VX_LOOPEND_{}__", k);
+        let ps = quote::format_ident!("__VX_LOOPSTART_{}__", k);
         let new: TokenStream = match e {
             syn::Expr::While(w) => {
-                let (attrs, label, cond, body) = (&w.attrs, &w.label, &w.cond, &w.body);
-                quote!(#(#attrs)* #label while #cond #ph #body)
+                let (attrs, label, cond) = (&w.attrs, &w.label, &w.cond);
+                let stmts = &w.body.stmts;
+                quote!(#(#attrs)* #label while #cond #ph { #ps #(#stmts)* #pe })
             }
             syn::Expr::ForLoop(f) => {
-                let (label, pat, expr, body) = (&f.label, &f.pat, &f.expr, &f.body);
+                let (label, pat, expr) = (&f.label, &f.pat, &f.expr);
+                let stmts = &f.body.stmts;
                 let ih = quote::format_ident!("__VX_ITER_{}__", k);
-                quote!(#label for #pat in #ih #expr #ph #body)
+                quote!(#label for #pat in #ih #expr #ph { #ps #(#stmts)* #pe })
             }
             syn::Expr::Loop(l) => {
-                let (label, body) = (&l.label, &l.body);
-                quote!(#label loop #ph #body)
+                let label = &l.label;
+                let stmts = &l.body.stmts;
+                quote!(#label loop #ph { #ps #(#stmts)* #pe })
             }
             _ => unreachable!(),
         };
@@ -1396,6 +1403,12 @@ fn emit_fn(ctx: &mut Ctx, d: &FnDir, out: &mut String) {
         let ih = format!("__VX_ITER_{}__ ", k);
         let it = d.loop_iters.get(&k).map(|s| format!("{}: ", s)).unwrap_or_default();
         body = body.replacen(&ih, &it, 1);
+        let pe = format!("__VX_LOOPEND_{}__", k);
+        let et = d.loop_ends.get(&k).map(|s| format!("\n{}\n", s.trim_end())).unwrap_or_default();
+        body = body.replacen(&pe, &et, 1);
+        let ps = format!("__VX_LOOPSTART_{}__", k);
+        let st = d.loop_starts.get(&k).map(|s| format!("\n{}\n", s.trim_end())).unwrap_or_default();
+        body = body.replacen(&ps, &st, 1);
     }
     for k in d.loops.keys() {
         if *k >= stats.loops {
@@ -1838,6 +1851,8 @@ fn process_text(ctx: &mut Ctx, tpl: &str, out: &mut String, depth: usize) {
                         Spec,
                         Entry,
                         Loop(usize),
+                        LoopEnd(usize),
+                        LoopStart(usize),
                         After(usize),
                     }
                     let mut sec = Sec::Spec;
@@ -1862,6 +1877,14 @@ fn process_text(ctx: &mut Ctx, tpl: &str, out: &mut String, depth: usize) {
                                         }
                                     }
                                     sec = Sec::Loop(k)
+                                }
+                                Some("loopstart") => {
+                                    let k: usize = w2[1].parse().unwrap_or_else(|_| die("loopstart needs ordinal"));
+                                    sec = Sec::LoopStart(k)
+                                }
+                                Some("loopend") => {
+                                    let k: usize = w2[1].parse().unwrap_or_else(|_| die("loopend needs ordinal"));
+                                    sec = Sec::LoopEnd(k)
                                 }
                                 Some("spec") => sec = Sec::Spec,
                                 Some("after") | Some("before") => {
@@ -1894,6 +1917,16 @@ fn process_text(ctx: &mut Ctx, tpl: &str, out: &mut String, depth: usize) {
                                 }
                                 Sec::Loop(k) => {
                                     let e = d.loops.entry(k).or_default();
+                                    e.push_str(l2);
+                                    e.push('\n');
+                                }
+                                Sec::LoopStart(k) => {
+                                    let e = d.loop_starts.entry(k).or_default();
+                                    e.push_str(l2);
+                                    e.push('\n');
+                                }
+                                Sec::LoopEnd(k) => {
+                                    let e = d.loop_ends.entry(k).or_default();
                                     e.push_str(l2);
                                     e.push('\n');
                                 }
